@@ -44,9 +44,35 @@ def run_ops(ctx, exe, ops, timeout=1800, env=None):
 
 
 def run_model(ctx, ops, timeout=1800):
-    rc, o, e = ctx.driver(['conf'], inp=('\n'.join(ops) + '\n').encode(), timeout=timeout)
+    """The extracted model on the op lines.  The extracted code recurses as deep as a value is long (it is not tail
+    recursive), so the driver gets a large stack."""
+    drv = os.path.join(OCAML, 'driver')
+    cmd = ['sh', '-c', 'ulimit -s unlimited 2>/dev/null || ulimit -s 4000000 2>/dev/null; exec "$0" conf', drv]
+    rc, o, e = ctx.run(cmd, inp=('\n'.join(ops) + '\n').encode(), timeout=timeout)
     lines = o.decode('latin1').splitlines()
     return lines, (None if rc == 0 else 'driver exit %s: %s' % (rc, e.decode('latin1')[-500:]))
+
+
+BIG = 200000
+
+
+def both_conf(ctx, exe, ops, timeout=1800, env=None):
+    """Same op lines through the harness and the extracted model: (impl_lines, model_lines, err).
+    Ops whose implementation output is larger than BIG characters (values that grow to megabytes through chains of
+    references) are not given to the model, which is some fifty times slower than the C code on them; they are counted
+    in the histogram 'model-skipped-large-output' and only checked for crash/timeout."""
+    il, deaths = run_ops(ctx, exe, ops, timeout=timeout, env=env)
+    keep = [k for k in range(len(ops)) if not (k < len(il) and len(il[k]) > BIG)]
+    # 'env' ops must stay: they set up the state for later ops
+    ml_k, err = run_model(ctx, [ops[k] for k in keep], timeout=timeout)
+    ml = list(il[:len(ops)]) + ['MISSING'] * (len(ops) - len(il))
+    for n, k in enumerate(keep):
+        ml[k] = ml_k[n] if n < len(ml_k) else 'MISSING'
+    if len(keep) < len(ops):
+        ctx.count('model-skipped-large-output', len(ops) - len(keep))
+    if deaths:
+        err = (err or '') + ' harness died on op %d: %s' % (deaths[0][0], deaths[0][1][-300:])
+    return il, ml, err
 
 
 # ====================================================================== INI-style documents
